@@ -80,10 +80,19 @@ type FuncContract struct {
 	Trusted    bool // contract assumed, body not verified (listed in evidence)
 	EnvAssume  []*Clause
 	SiteAsserts []*SiteAssert         // assertions at map-update sites selected by static map type
+	Cuts       []*Cut
 	GhostEntry []GhostAssign          // ghost assignments executed on entry
 	CallAsserts map[string][]*Clause   // assertions at calls of the named callee (callee parameter names in scope)
 	SendAssert []*Clause // assertions at every send site in this function (bound var e)
 	Line       int
+}
+
+// Cut: a cut point of the float pipeline: at the first access of the named struct field the fact is proved
+// (from the float operations since the previous cut) and from then on used instead of those operations.
+type Cut struct {
+	Field string
+	C     *Clause
+	Hit   bool
 }
 
 type SiteAssert struct {
@@ -125,7 +134,7 @@ type ContractFile struct {
 var directiveKw = map[string]bool{
 	"ghost": true, "on": true, "pred": true, "spec": true, "func": true, "requires": true, "ensures": true,
 	"modifies": true, "let": true, "safety": true, "loop": true, "assume": true, "lemma": true,
-	"extern": true, "axiom": true, "canary": true, "callassert": true, "siteassert": true, "trusted": true, "sendassert": true,
+	"extern": true, "axiom": true, "canary": true, "callassert": true, "siteassert": true, "cut": true, "trusted": true, "sendassert": true,
 }
 
 var tagRe = regexp.MustCompile(`^\[([A-Za-z0-9_, ]*)\]\s*`)
@@ -311,6 +320,21 @@ func parseContractFile(path, pkg string, cf *ContractFile) error {
 			}
 			c.Name = fmt.Sprintf("%s.callassert(%s)%d", cur.Name, fields[1], len(cur.CallAsserts[fields[1]])+1)
 			cur.CallAsserts[fields[1]] = append(cur.CallAsserts[fields[1]], c)
+		case "cut":
+			// cut load(.FIELD) [tags] expr
+			if cur == nil {
+				return fail(fmt.Errorf("cut outside func"))
+			}
+			m := regexp.MustCompile(`^load\(\.(\w+)\)\s+(.*)$`).FindStringSubmatch(rest)
+			if m == nil {
+				return fail(fmt.Errorf("bad cut"))
+			}
+			c, err := mkClause("cut", m[2], d.file, d.line)
+			if err != nil {
+				return err
+			}
+			c.Name = fmt.Sprintf("%s.cut(.%s)%d", cur.Name, m[1], len(cur.Cuts)+1)
+			cur.Cuts = append(cur.Cuts, &Cut{Field: m[1], C: c})
 		case "siteassert":
 			// siteassert mapupdate(TYPE) [tags] expr  -- k, v are the stored key and value; locals by name
 			if cur == nil {
